@@ -4,15 +4,16 @@ Four bounded exhaustive enumerations, each executed against the real classes in
 insights/core/__init__.py and compared with a boring reference (ref/c14_models.py):
 
   (a) cmd     CommandParser bad-line validation: every content of 0-3 lines over an alphabet with one
-              line per (phrase x letter case x position), extra_bad_lines in {none, own phrase, a
-              built-in single-line phrase}
+              line per (phrase x letter case x position) plus glued / cut / split phrases, 7 extra_bad_lines
+              settings, and the same rule observed through ContainerParser
   (b) json /  JSONParser / YAMLParser: every mapping/sequence value up to depth 2 over the scalar set,
       yaml    3-4 renderings, 0-2 noise lines, every proper prefix of three sample documents, every
               token string of <= 3 (quick) / <= 4 (thorough) tokens, hand-picked junk; list and str input
   (c) search  get / __contains__ / keep_scan / last_scan / token_scan on every log of <= 4 (5) lines over
-              {alpha, beta, both, neither, ""} for every (terms, all|any, num, reverse)
+              {alpha, beta, both, neither, ""} (+ glued / doubled / other-case lines, one line shorter) for every
+              (terms, all|any, num, reverse), on TextFileOutput, LogFileOutput, Syslog, LazyLogFileOutput
   (d) time    get_after on every log of <= 4 (5) lines over stamps around the query time and the year
-              boundary, continuation lines and term-bearing lines, for 5 (6) format kinds
+              boundary, continuation lines and term-bearing lines, for 8 (9) format kinds
 
 Oracle = what the property states; the lenient cases of DESIGN.md C14 are encoded in the reference
 (json_expect / yaml_expect) and commented there.
@@ -38,29 +39,43 @@ RULE = ("cmd: all contents of 0..3 lines over the phrase x case x position line 
         "least once, or a continuation line follows a used stamped line, or the year inference moved a stamp")
 ASSUMPTIONS = [
     "json.loads and yaml.load(SafeLoader / CSafeLoader) are trusted as decoders; the wrapper logic around them is what is checked "
-    "(where the two YAML loaders disagree on a text either verdict is accepted)",
-    "lenient cases (either outcome accepted): JSON scalar documents, whitespace-only JSON, scalar/null after noise, empty top-level "
-    "mapping/sequence (value or skip), noise in str input",
-    "timestamp-shaped substrings are valid dates; time formats in one list either all carry a year or none does",
+    "(where the two YAML loaders disagree on a text - only 'a:<TAB>b' in the enumerated space - either verdict is accepted: the "
+    "statement does not pick a YAML dialect)",
+    "decided by the statement (strict): an empty top-level {} / [] is a valid mapping/sequence document and must be returned as its "
+    "value (JSON and YAML); no lines / empty string / null -> skip; undecodable -> parse error; YAML scalar -> parse error; "
+    "the year rollover means true calendar dates (adjacent year, not '365 days')",
+    "remaining lenient cases (statement silent or contradicted by the class documentation, kept narrow): a JSON scalar document may be "
+    "returned as its value or be a parse error (never a skip); whitespace-only JSON may skip or be a parse error; a scalar after noise "
+    "lines may be the value or a parse error, null after noise a skip or a parse error; noise before a document in *str* input may give "
+    "the value or a parse error; last_scan without a match may be any falsy value",
+    "excluded from the alphabets because the statement does not cover them: noise lines that themselves start with { or [ (the "
+    "documented start-line heuristic cannot tell them from the document), extra_bad_lines given as a str or in upper case, search "
+    "terms of other types than str / non-empty list of str, negative limits, unpadded day numbers ('Jan 1 00:00:00': not "
+    "timestamp-shaped under the documented format-to-regex conversion), lines with two timestamps, timestamp-shaped substrings "
+    "that are not valid dates, time format lists mixing formats with and without a year",
     "bounded: no counterexample within the stated line / token / depth bounds over the stated alphabets, nothing more",
 ]
 BOUNDS = {
-    "quick": {"cmd_lines": 3, "cmd_alphabet": 80, "cmd_3line_alphabet": 16, "doc_depth": 2, "noise_lines": 2,
-              "garbage_tokens": 3, "search_lines": 4, "time_lines": 4, "time_formats": 5, "query_times": 3},
-    "thorough": {"cmd_lines": 3, "cmd_alphabet": 80, "cmd_3line_alphabet": 80, "doc_depth": 2, "noise_lines": 2,
-                 "garbage_tokens": 4, "search_lines": 5, "time_lines": 5, "time_formats": 6, "query_times": 5},
+    "quick": {"cmd_lines": 3, "cmd_alphabet": 94, "cmd_3line_alphabet": 22, "cmd_extra_settings": 8, "doc_depth": 2, "noise_lines": 2,
+              "garbage_tokens": 3, "search_lines": 4, "search_lines_full_alphabet": 3, "time_lines": 4, "time_lines_extra_kinds": 3,
+              "time_formats": 8, "query_times": 4},
+    "thorough": {"cmd_lines": 3, "cmd_alphabet": 94, "cmd_3line_alphabet": 94, "cmd_extra_settings": 8, "doc_depth": 2, "noise_lines": 2,
+                 "garbage_tokens": 4, "search_lines": 5, "search_lines_full_alphabet": 4, "time_lines": 5, "time_lines_extra_kinds": 4,
+                 "time_formats": 9, "query_times": 5},
 }
 CAP_S = {"quick": 120, "thorough": 1500}
 
 
 @functools.lru_cache(None)
 def _imp():
-    from insights.core import (CommandParser, JSONParser, YAMLParser, TextFileOutput, LogFileOutput, Syslog)
+    from insights.core import (CommandParser, ContainerParser, JSONParser, YAMLParser, TextFileOutput, LogFileOutput,
+                               LazyLogFileOutput, Syslog)
     from insights.core.context import Context
     from insights.core.exceptions import ContentException, ParseException, SkipComponent
     from harness.ctx import make_context
-    return dict(CommandParser=CommandParser, JSONParser=JSONParser, YAMLParser=YAMLParser,
-                TextFileOutput=TextFileOutput, LogFileOutput=LogFileOutput, Syslog=Syslog, Context=Context,
+    return dict(CommandParser=CommandParser, ContainerParser=ContainerParser, JSONParser=JSONParser, YAMLParser=YAMLParser,
+                TextFileOutput=TextFileOutput, LogFileOutput=LogFileOutput, LazyLogFileOutput=LazyLogFileOutput,
+                Syslog=Syslog, Context=Context,
                 ContentException=ContentException, ParseException=ParseException, SkipComponent=SkipComponent,
                 make_context=make_context)
 
@@ -70,7 +85,12 @@ def _imp():
 # =============================================================================================
 
 EXTRA_PHRASE = "xtra fail"
-CMD_EXTRAS = [None, [EXTRA_PHRASE], ["command not found"]]
+META_PHRASE = "err (.*) [x"            # a phrase full of regular-expression metacharacters
+# extra_bad_lines settings: absent, a falsy list, one phrase, a built-in single-line phrase, two phrases with the live one
+# first / last ("more than one of a thing"), a phrase with metacharacters; plus the ContainerParser wrapper as a second
+# observation channel of the same rule (it takes no extra_bad_lines)
+CMD_EXTRAS = [None, [], [EXTRA_PHRASE], ["command not found"], ["zzz nothing", EXTRA_PHRASE], [EXTRA_PHRASE, "zzz nothing"],
+              [META_PHRASE], "via:ContainerParser"]
 _CASES = (("lower", str.lower), ("upper", str.upper), ("mixed", str.title))
 _POS = (("whole", "%s"), ("prefix", "%s: tail text"), ("suffix", "bash: thing: %s"), ("infix", "ls: %s (os error 2)"))
 
@@ -86,6 +106,14 @@ def cmd_alphabet():
     for cn, cf in _CASES:
         for pn, pf in (_POS[0], _POS[3]):
             syms.append(("%s/%s/%s" % (EXTRA_PHRASE, cn, pn), pf % cf(EXTRA_PHRASE)))
+    # neighbours and glue: the phrase between word characters, a phrase cut short at either end, a phrase split over
+    # two lines (never bad: the rule is per line), the metacharacter phrase
+    for p in M.SINGLE_PHRASES + M.MULTI_PHRASES:
+        syms.append(("%s/lower/glued" % p, "abc%sxyz" % p))
+    syms += [("cut/tail", "bash: thing: command not foun"), ("cut/head", "o such file or directory: /x"),
+             ("split/single/1", "bash: thing: command not"), ("split/single/2", "found in path"),
+             ("split/multi/1", "rpm: missing"), ("split/multi/2", "dependencies: libfoo"),
+             ("meta/upper/infix", "prog: ERR (.*) [X here"), ("meta/near-miss", "prog: err (abc) [x here")]
     assert len(set(l for _, l in syms)) == len(syms)
     return syms
 
@@ -98,50 +126,58 @@ def cmd_reduced():
             "not a directory/lower/prefix", "no module named/upper/whole", "no files found for/mixed/infix",
             "missing dependencies:/lower/whole", "missing dependencies:/upper/suffix", "missing dependencies:/mixed/infix",
             "missing dependencies:/lower/prefix",
-            "xtra fail/lower/whole", "xtra fail/upper/infix", "xtra fail/mixed/whole", "command not found/mixed/prefix"]
+            "xtra fail/lower/whole", "xtra fail/upper/infix", "xtra fail/mixed/whole", "command not found/mixed/prefix",
+            "missing dependencies:/lower/glued", "split/multi/1", "split/multi/2", "split/single/1", "split/single/2",
+            "meta/upper/infix"]
     tags = [t for t, _ in cmd_alphabet()]
     return [tags.index(w) for w in want]
 
 
-_REC = []
+_REC = {}
 
 
-def _rec_class():
-    if not _REC:
+def _rec_class(base="CommandParser"):
+    if base not in _REC:
         I = _imp()
 
-        class C14Recorder(I["CommandParser"]):
+        class C14Recorder(I[base]):
             calls = []
 
             def parse_content(self, content):
                 type(self).calls.append(content)
-        _REC.append(C14Recorder)
-    return _REC[0]
+        _REC[base] = C14Recorder
+    return _REC[base]
 
 
-_ALL_PHRASES = M.SINGLE_PHRASES + M.MULTI_PHRASES + [EXTRA_PHRASE]
+_ALL_PHRASES = M.SINGLE_PHRASES + M.MULTI_PHRASES + [EXTRA_PHRASE, META_PHRASE]
 
 
 def check_cmd(lines, extra):
     """-> (violations, meta). violations = [(clause, expected, observed, features)]"""
     I = _imp()
-    Rec = _rec_class()
+    via = "CommandParser"
+    if isinstance(extra, str):                      # "via:<wrapper class>": same rule, no extra_bad_lines
+        via, extra = extra.split(":", 1)[1], None
+    Rec = _rec_class(via)
     Rec.calls = calls = []
     orig = list(lines)
     ctx = I["make_context"](lines)
     raised = None
+    given = None if extra is None else list(extra)
     try:
         if extra is None:
             Rec(ctx)
         else:
-            Rec(ctx, extra_bad_lines=list(extra))
+            Rec(ctx, extra_bad_lines=given)
     except I["ContentException"]:
         raised = "ContentException"
     except Exception as ex:
         raised = type(ex).__name__
     bad = M.command_is_bad(orig, extra)
-    feats = {"part": "cmd", "lines": len(orig), "extra": extra is not None}
+    feats = {"part": "cmd", "lines": len(orig), "extra": extra is not None, "via": via}
     v = []
+    if given is not None and given != list(extra):
+        v.append(("command:extra-bad-lines-unchanged", list(extra), given, feats))
     if raised not in (None, "ContentException"):
         v.append(("command:other-exception-type", "ContentException or an object", raised, feats))
     elif bad:
@@ -156,8 +192,27 @@ def check_cmd(lines, extra):
         elif len(calls) != 1 or not isinstance(calls[0], list) or calls[0] != orig or ctx.content != orig:
             v.append(("command:content-unchanged", [orig], calls, feats))
     meta = {"nt": any(p in l.lower() for l in orig for p in _ALL_PHRASES),
-            "out": "cmd:%d:%s:%s" % (len(orig), "bad" if bad else "good", "x" if extra else "-")}
+            "out": "cmd:%d:%s:%s:%s" % (len(orig), "bad" if bad else "good", "x" if extra else "-", via[:4])}
     return v, meta
+
+
+def check_cmd_none():
+    """content None (a spec that produced nothing): not an error message, so no ContentException; the parser is reached
+    exactly once with nothing in it (None or an empty list - the statement does not say which)."""
+    I = _imp()
+    v = []
+    for via in ("CommandParser", "ContainerParser"):
+        Rec = _rec_class(via)
+        Rec.calls = calls = []
+        raised = None
+        try:
+            Rec(I["Context"](content=None, path="path"))
+        except Exception as ex:
+            raised = type(ex).__name__
+        if raised is not None or len(calls) != 1 or calls[0] not in (None, []):
+            v.append(("command:content-unchanged", "parse_content(None) once", "raised %s, calls %r" % (raised, calls),
+                      {"part": "cmd", "lines": 0, "extra": False, "via": via}))
+    return v, {"nt": False, "out": "cmd:none"}
 
 
 def cmd_contents(first, tier):
@@ -186,11 +241,11 @@ def cmd_contents(first, tier):
 # (b) JSON / YAML documents
 # =============================================================================================
 
-SCALARS = [0, -1, 1.5, "s", "", True, None]
+SCALARS = [0, -1, 1.5, "s", "", True, False, None]
 EMPTIES = [[], {}]
 QUICK_INNER = [0, "s", None, [], {}, [0], [1.5, ""], {"a": -1}, {"a": True, "b": "s"}]
-JSON_NOISE = {"quick": ["noise line", "", "WARN: {x} [y]"],
-              "thorough": ["noise line", "", "WARN: {x} [y]", "   ", "}", "0"]}
+JSON_NOISE = {"quick": ["noise line", "", "WARN: {x} [y]", "   "],
+              "thorough": ["noise line", "", "WARN: {x} [y]", "   ", "}", "0", "\t", "null"]}
 YAML_IGNORE = ["warning", "#!"]
 YAML_NOISE = ["WARNING: x: y", "  warning [", "Warning", "#!shebang {"]
 SAMPLES = ['{"a": [0, {"b": null}], "c": "s"}',
@@ -415,9 +470,13 @@ def doc_inputs(kind, part, tier, shard, of):
                     lines = render(text, how)
                     for nz in noise_prefixes(JSON_NOISE[tier]):
                         yield nz + lines, None
+                    yield ["noise line", "", "   "] + lines, None          # more than two noise lines, blank ones last
                     yield lines + ["trailing noise"], None
+                    yield lines + ["", "  "], None                         # blank lines after the document are not content
                     yield "\n".join(lines), None
+                    yield "\n".join(lines) + "\n", None
                     yield "noise line\n" + "\n".join(lines), None
+                    yield "\n" + "\n".join(lines), None
             else:
                 for how in YAML_RENDERINGS:
                     lines = render(text, how)
@@ -427,9 +486,9 @@ def doc_inputs(kind, part, tier, shard, of):
                     for ls, _k in yaml_noise_placements(lines):
                         yield ls, YAML_IGNORE
     elif part == "scalars":
-        texts = ["0", "-1", "1.5", '"s"', '""', "true", "null"]
+        texts = ["0", "-1", "1.5", '"s"', '""', "true", "false", "0.0", "null"]
         if kind == "yaml":
-            texts += ["s", "''", "~", "yes", "- ", "a:"]
+            texts += ["s", "''", "~", "yes", "no", "- ", "a:"]
         for t in texts:
             noise = JSON_NOISE[tier] if kind == "json" else []
             for nz in noise_prefixes(noise):
@@ -490,11 +549,19 @@ SEARCH_LINES = ["May  9 15:13:34 host procA[1]: alpha started",
                 "May  9 15:13:35 host procB[2]: beta started",
                 "May  9 15:13:36 host procC[3]: beta then alpha",
                 "May  9 15:13:37 host procD[4]: neither",
-                ""]
-SEARCH_TERMS = {"quick": ["alpha", ["alpha"], ["alpha", "beta"], "beta", "zeta"],
-                "thorough": ["alpha", ["alpha"], ["alpha", "beta"], "beta", "zeta", "", ["beta", "zeta"], ["beta", "alpha"]]}
+                "",
+                # neighbours and glue: the term inside a longer word, twice in a line, in another letter case
+                "May  9 15:13:38 host procE[5]: alphabet soup",
+                "May  9 15:13:39 host procF[6]: alpha and alpha again",
+                "May  9 15:13:40 host procG[7]: ALPHA Beta shouted"]
+N_SEARCH_BASE = 5        # logs of the full length use the first five lines; logs one line shorter use all eight
+# terms: single, one-element list, two-element list, absent, empty string (contained in every line), a term that is a
+# prefix of another one, a term made of regular-expression metacharacters
+SEARCH_TERMS = {"quick": ["alpha", ["alpha"], ["alpha", "beta"], "beta", "zeta", "", ["alp", "alpha"], "[1]:"],
+                "thorough": ["alpha", ["alpha"], ["alpha", "beta"], "beta", "zeta", "", ["alp", "alpha"], "[1]:",
+                             ["beta", "zeta"], ["beta", "alpha"], ["alpha", "beta", "then"], [""], "a.pha"]}
 SEARCH_NUMS = [None, 0, 1, 2]
-SEARCH_CLASSES = ["TextFileOutput", "LogFileOutput", "Syslog"]
+SEARCH_CLASSES = ["TextFileOutput", "LogFileOutput", "Syslog", "LazyLogFileOutput"]
 
 
 @functools.lru_cache(None)
@@ -508,21 +575,36 @@ def search_queries(tier):
             for num in SEARCH_NUMS:
                 for rev in (False, True):
                     qs.append({"op": "get", "s": s, "check": chk, "num": num, "reverse": rev})
-                    qs.append({"op": "keep_scan", "s": s, "check": chk, "num": num, "reverse": rev})
+                    # keep_scan forwards to get: the quick tier registers it for two of the four limits
+                    if tier == "thorough" or num in (None, 1):
+                        qs.append({"op": "keep_scan", "s": s, "check": chk, "num": num, "reverse": rev})
     return qs
 
 
 def _raw(d):
+    """The line a result dictionary stands for; every raw key present must carry the same line."""
     if not isinstance(d, dict):
         return ("<not a dict>", repr(d))
-    return d["raw_line"] if "raw_line" in d else d.get("raw_message", "<no raw line key>")
+    raws = [d[k] for k in ("raw_line", "raw_message") if k in d]
+    if not raws:
+        return "<no raw line key>"
+    if any(r != raws[0] for r in raws):
+        return ("<raw keys differ>", raws)
+    return raws[0]
+
+
+_SCANNER_OPS = ("keep_scan", "last_scan", "token_scan")
 
 
 def check_search(clsname, lines, queries):
-    """One freshly created subclass with the scanners of `queries` registered, one parser over `lines`.
+    """One freshly created subclass with the scanners of `queries` registered, one parser over `lines`, read only after
+    a second parser of the same class was built over an empty log (results live on the instance, not on the class).
     -> [(query index, violations, meta)]"""
     I = _imp()
-    cls = type("C14Search", (I[clsname],), {})
+    base = I[clsname]
+    base_scanners = sorted(base.scanners)
+    cls = type("C14Search", (base,), {})
+    lazy = clsname == "LazyLogFileOutput"
     chk = {"all": all, "any": any}
     for i, q in enumerate(queries):
         if q["op"] == "keep_scan":
@@ -535,6 +617,15 @@ def check_search(clsname, lines, queries):
     out = []
     try:
         p = cls(I["make_context"](lines))
+        other = cls(I["make_context"]([]))
+        if lazy:
+            # documented protocol: nothing is scanned until do_scan; one key, then all, then all again (each scanner once)
+            first_key = next(("k%d" % i for i, q in enumerate(queries) if q["op"] in _SCANNER_OPS), None)
+            if first_key is not None:
+                p.do_scan(first_key)
+            p.do_scan()
+            p.do_scan()
+            other.do_scan()
     except Exception as ex:
         return [(i, [("search:raises", "a parser object", "constructor raised %r" % (ex,), {"part": "search"})],
                  {"nt": False, "out": "search:raise"}) for i in range(len(queries))]
@@ -545,15 +636,20 @@ def check_search(clsname, lines, queries):
         try:
             if op == "get":
                 got = [_raw(d) for d in p.get(q["s"], check=chk[q["check"]], num=q["num"], reverse=q["reverse"])]
+                empty = other.get(q["s"], check=chk[q["check"]], num=q["num"], reverse=q["reverse"])
             elif op == "keep_scan":
                 got = [_raw(d) for d in getattr(p, "k%d" % i)]
+                empty = getattr(other, "k%d" % i)
             elif op == "last_scan":
                 d = getattr(p, "k%d" % i)
                 got = [_raw(d)] if d else []
+                empty = getattr(other, "k%d" % i)
             elif op == "token_scan":
                 got = getattr(p, "k%d" % i)
+                empty = getattr(other, "k%d" % i)
             elif op == "contains":
                 got = q["s"] in p
+                empty = q["s"] in other
             else:
                 raise ValueError(op)
         except Exception as ex:
@@ -571,20 +667,36 @@ def check_search(clsname, lines, queries):
             nt = 0 < len(full) < len(orig)
         if got != exp or (op in ("token_scan", "contains") and type(got) is not bool):
             v.append(("search:%s-returns-matching-lines-in-order" % op.replace("_", "-"), exp, got, feats))
+        if empty:
+            v.append(("search:empty-log-has-no-matches", "nothing found in a second parser over an empty log", repr(empty), feats))
         out.append((i, v, {"nt": nt, "out": "search:%s:%s" % (op, len(exp) if isinstance(exp, list) else exp)}))
     if p.lines != orig:
         out.append((0, [("search:lines-unchanged", orig, p.lines, {"part": "search"})], {"nt": False, "out": "search:mut"}))
+    if sorted(base.scanners) != base_scanners:
+        out.append((0, [("search:scanners-stay-on-the-subclass", base_scanners, sorted(base.scanners),
+                         {"part": "search", "cls": clsname})], {"nt": False, "out": "search:leak"}))
+        for k in list(base.scanners):
+            if k not in base_scanners:
+                del base.scanners[k]
     return out
 
 
 def search_logs(first, maxlen):
-    """All logs (tuples of SEARCH_LINES indices) whose first line is `first`; -1: the empty log."""
+    """All logs (tuples of SEARCH_LINES indices) whose first line is `first`; -1: the empty log.
+    Length <= maxlen over the five base lines, length <= maxlen-1 over all eight lines (each log once)."""
     if first < 0:
         yield ()
         return
-    for n in range(0, maxlen):
+    nb = N_SEARCH_BASE
+    if first < nb:
+        for n in range(0, maxlen):
+            for t in itertools.product(range(nb), repeat=n):
+                yield (first,) + t
+    for n in range(0, maxlen - 1):
         for t in itertools.product(range(len(SEARCH_LINES)), repeat=n):
-            yield (first,) + t
+            lg = (first,) + t
+            if any(k >= nb for k in lg):
+                yield lg
 
 
 # =============================================================================================
@@ -597,22 +709,30 @@ F_B = "%y%m%d %H:%M:%S"
 F_C = "%d/%b/%Y:%H:%M:%S"
 F_S = "%b %d %H:%M:%S"
 F_M = "%m/%d %H:%M:%S"
+F_P = "%d/%m/%Y %I:%M:%S %p"          # 12-hour clock with AM/PM
+F_F = "%Y-%m-%d %H:%M:%S.%f"          # fractional seconds
 # name -> (base class, time_format or None to keep the class's own, formats used for rendering by symbol parity, have_year)
 TIME_FORMATS = {
     "default": ("LogFileOutput", None, [F_A], True),
     "syslog": ("Syslog", None, ["S_"], False),          # day of month space padded, as syslog writes it
     "syslog0": ("Syslog", None, [F_S], False),          # zero padded
-    "list": ("LogFileOutput", [F_A, F_B], [F_A, F_B], True),
+    "list": ("LogFileOutput", [F_A, F_B, F_C], [F_A, F_B, F_C], True),        # three formats: first / middle / last
     "dict": ("LogFileOutput", {"new": F_C, "old": F_B}, [F_C, F_B], True),
     "noyear_list": ("LogFileOutput", [F_S, F_M], [F_S, F_M], False),
+    # further observation channels and format letters; enumerated one line shorter than the main kinds
+    "lazy": ("LazyLogFileOutput", None, [F_A], True),
+    "ampm": ("LogFileOutput", F_P, [F_P], True),
+    "micro": ("LogFileOutput", F_F, [F_F], True),
 }
-TIME_FORMAT_NAMES = {"quick": ["default", "syslog", "syslog0", "list", "dict"],
-                     "thorough": ["default", "syslog", "syslog0", "list", "dict", "noyear_list"]}
+TIME_FORMAT_NAMES = {"quick": ["default", "syslog", "syslog0", "list", "dict", "lazy", "ampm", "micro"],
+                     "thorough": ["default", "syslog", "syslog0", "list", "dict", "noyear_list", "lazy", "ampm", "micro"]}
+SHORT_KINDS = ("lazy", "ampm", "micro")
 QUERY_TIMES = {"quick": [[2021, 6, 15, 12, 0, 0], [2021, 1, 1, 0, 0, 0], [2021, 12, 31, 23, 59, 59], [2024, 1, 1, 0, 0, 0]],
                "thorough": [[2021, 6, 15, 12, 0, 0], [2021, 1, 1, 0, 0, 0], [2021, 12, 31, 23, 59, 59],
                             [2020, 12, 31, 23, 59, 59], [2024, 1, 1, 0, 0, 0]]}
 LEAP_QUERY_TIMES = [[2024, 2, 29, 0, 0, 0], [2024, 2, 28, 23, 59, 59], [2024, 3, 1, 0, 0, 0]]
 TIME_TERMS = [None, "xx", ["xx", "yy"]]
+EMPTY_TERM_MAX_LINES = 3      # s="" (falsy, contained in every line) is added for logs up to this length
 N_BASE = 9          # symbols 0..8 are the base alphabet, 9..10 the 330-day threshold pair
 
 
@@ -631,6 +751,10 @@ def render_stamp(fmt, st):
         return "%s %2d %s" % (MON[Mo - 1], D, hms)
     if fmt == F_M:
         return "%02d/%02d %s" % (Mo, D, hms)
+    if fmt == F_P:
+        return "%02d/%02d/%04d %02d:%02d:%02d %s" % (D, Mo, Y, (h % 12) or 12, m, s, "AM" if h < 12 else "PM")
+    if fmt == F_F:
+        return "%04d-%02d-%02d %s.000000" % (Y, Mo, D, hms)
     raise ValueError(fmt)
 
 
@@ -662,6 +786,9 @@ def time_alphabet(fmt, tq, symset):
     for k, (st, terms) in enumerate(spec):
         if st is None:
             text = "    at continuation of the previous entry" + terms
+        elif symset == "base" and k == 2:
+            # the stamp is not at the start of the line (it is searched for, not matched at column 0)
+            text = "<13>[" + render_stamp(rf[k % len(rf)], st) + "] host proc[1]: message" + terms
         else:
             text = render_stamp(rf[k % len(rf)], st) + " host proc[1]: message" + terms
         syms.append((text, st, terms))
@@ -701,9 +828,18 @@ def check_time(fmt, tq, symset, log, s):
     feats = {"part": "time", "fmt": fmt, "have_year": have_year, "leap_day_line": bool(leap_line)}
     v = []
     texts = [x[0] for x in lines]
+    again = None
     try:
         p = _time_class(fmt)(I["make_context"](texts))
         got = [d.get("raw_message") if isinstance(d, dict) else repr(d) for d in p.get_after(t, s)]
+        if len(lines) <= 3:
+            # history on one long-lived object: an interleaved second search with other terms, then the same search again
+            g1 = p.get_after(t, s)
+            g2 = p.get_after(t, "xx" if s is None else None)
+            again = []
+            for d in g1:
+                next(g2, None)
+                again.append(d.get("raw_message") if isinstance(d, dict) else repr(d))
     except Exception as ex:
         got = None
         f = dict(feats, raised=type(ex).__name__)
@@ -719,6 +855,10 @@ def check_time(fmt, tq, symset, log, s):
     # was weaker than the statement. `alt` is kept only to measure how often the two readings differ.)
     if got is not None and got != exp:
         v.append(("time:lines-at-or-after-plus-continuations", exp, got, feats))
+    elif got is not None and again is not None and again != got:
+        v.append(("time:second-search-on-same-object", got, again, feats))
+    if got is not None and p.lines != texts:
+        v.append(("time:lines-unchanged", texts, p.lines, feats))
     # measured non-triviality
     used = [x for x in lines if s is None or all(w in x[0] for w in ([s] if isinstance(s, str) else s))]
     flags = [M.effective_stamp(st, t, have_year) >= t for _x, st, _y in used if st is not None]
@@ -794,6 +934,13 @@ def run_unit(unit, tier):
 
     if part == "cmd":
         alpha = [l for _t, l in cmd_alphabet()]
+        if unit["first"] < 0:
+            v, meta = check_cmd_none()
+            res.evals += 1
+            res.stat("cases_cmd")
+            res.outcomes.add(meta["out"])
+            if v:
+                _viol(res, {"part": "cmd", "lines": None, "extra": None}, v)
         for idx in cmd_contents(unit["first"], tier):
             lines = [alpha[i] for i in idx]
             for extra in CMD_EXTRAS:
@@ -830,7 +977,7 @@ def run_unit(unit, tier):
 
     if part == "search":
         qs = search_queries(tier)
-        maxlen = BOUNDS[tier]["search_lines"]
+        maxlen = BOUNDS[tier]["search_lines"] - (1 if unit["cls"] == "LazyLogFileOutput" else 0)
         for lg in search_logs(unit["first"], maxlen):
             lines = [SEARCH_LINES[i] for i in lg]
             for qi, v, meta in check_search(unit["cls"], lines, qs):
@@ -855,10 +1002,19 @@ def run_unit(unit, tier):
             logs = [()]
             terms = TIME_TERMS
         else:
-            logs = time_logs(canon, unit["first"], BOUNDS[tier]["time_lines"])
+            logs = time_logs(canon, unit["first"], BOUNDS[tier]["time_lines"] - (1 if fmt in SHORT_KINDS else 0))
             terms = TIME_TERMS
         for lg in logs:
-            for s in terms:
+            if symset == "base" and len(lg) <= EMPTY_TERM_MAX_LINES:
+                here = terms + [""]
+            elif tier == "quick" and symset == "base":
+                # quick: a search with terms only sees the term-bearing sub-log, and every such sub-log of <= 3 lines is
+                # already enumerated above; the longest logs are searched without terms, and with the term when they
+                # consist of term-bearing lines only (so that four kept lines occur too). thorough: all terms always.
+                here = [None] + (["xx"] if all(_syms[k][2] for k in lg) else [])
+            else:
+                here = terms
+            for s in here:
                 v, meta = check_time(fmt, tq, symset, lg, s)
                 res.evals += 1
                 res.stat("cases_time_%s" % symset)
@@ -866,10 +1022,11 @@ def run_unit(unit, tier):
                     res.nontrivial += 1
                 res.outcomes.add(meta["out"])
                 if meta["loose"]:
-                    res.stat("time_rollover_readings_differ_either_accepted")
+                    res.stat("time_rollover_365_reading_would_differ")
                 if v:
                     _viol(res, {"part": "time", "fmt": fmt, "t": tq, "symset": symset, "log": list(lg), "s": s}, v)
-        res.maxi("time_log_lines_completed", BOUNDS[tier]["time_lines"] if symset == "base" else 3)
+        if symset == "base" and fmt not in SHORT_KINDS:
+            res.maxi("time_log_lines_completed", BOUNDS[tier]["time_lines"])
         if symset == "base" and unit["first"] == 0:
             res.samples.append({"part": "time", "fmt": fmt, "t": tq, "symset": "base", "log": [0, 5, 2, 5], "s": None})
         return res
@@ -886,6 +1043,8 @@ def _refcheck(tier):
     for idx in itertools.chain([()], ((i,) for i in range(len(alpha))), itertools.product(range(len(alpha)), repeat=2)):
         lines = [alpha[i] for i in idx]
         for extra in CMD_EXTRAS:
+            if isinstance(extra, str):
+                continue
             n += 1
             if M.command_is_bad(lines, extra) != M.command_is_bad_2(lines, extra):
                 raise RuntimeError("C14 command references disagree on %r %r" % (lines, extra))
@@ -925,6 +1084,8 @@ def _refcheck(tier):
                     f = rf[k % len(rf)]
                     f = F_S if f == "S_" else f
                     stamp_text = text[:text.index(" host")]
+                    if stamp_text.startswith("<13>["):
+                        stamp_text = stamp_text[5:-1]
                     if have_year:
                         back = datetime.datetime.strptime(stamp_text, f)
                         ok = _tup(back) == tuple(st)
@@ -942,7 +1103,7 @@ def _refcheck(tier):
 def replay(case):
     part = case["part"]
     if part == "cmd":
-        v, _m = check_cmd(list(case["lines"]), case.get("extra"))
+        v, _m = check_cmd_none() if case["lines"] is None else check_cmd(list(case["lines"]), case.get("extra"))
     elif part == "doc":
         v, _m = check_doc(case["kind"], materialise(case["input"]), case.get("ignore"))
     elif part == "search":
